@@ -141,6 +141,14 @@ pub fn serde_msg(m: &rtcm_rs::Message) -> Result<(), String> {
     if &back != m {
         return Err("message differs after to_value/from_value".into());
     }
+    // the same through a value tree that announces itself as a text format and as a binary format
+    // (is_human_readable() = false: what CBOR / MessagePack implementations report)
+    for hr in [true, false] {
+        match crate::valtree::round_trip(m, hr) {
+            Ok(b) => if &b != m { return Err(format!("message differs after a value-tree round trip (human_readable = {})", hr)); },
+            Err(e) => return Err(format!("value-tree round trip failed (human_readable = {}): {}", hr, e.chars().take(120).collect::<String>())),
+        }
+    }
     // the JSON *text* path is not used for messages: serde_json's default float parser is not
     // guaranteed to reproduce every f64 bit pattern (feature float_roundtrip is off); the property
     // speaks about the self-describing data model, i.e. serde_json::Value.
